@@ -694,13 +694,22 @@ impl StorageConfig for ZarrAsyncConfig {
                 .collect();
 
             let mut group_path = self.group_path.unwrap_or_else(|| "".to_string());
+            if !group_path.starts_with('/') {
+                group_path.insert(0, '/');
+            }
             if !group_path.ends_with('/') {
                 group_path.push('/');
             }
+            // A zarr node path other than the root must not end with a slash.
+            let root_path = if group_path.len() > 1 {
+                group_path.trim_end_matches('/')
+            } else {
+                "/"
+            };
             let store = self.store;
             let draw_chunk_size = self.draw_chunk_size;
 
-            let mut root = GroupBuilder::new().build(store.clone(), &group_path)?;
+            let mut root = GroupBuilder::new().build(store.clone(), root_path)?;
 
             let attrs = root.attributes_mut();
             attrs.insert(
